@@ -45,15 +45,6 @@ pub assume_specification[ core::time::Duration::as_millis ](d: &core::time::Dura
 // `bool::then_some`: assumed std contract
 pub assume_specification<T>[ bool::then_some ](b: bool, t: T) -> (r: Option<T>)
   ensures r == (if b { Some(t) } else { None::<T> });
-// a point in time (std::time::Instant): opaque; how much time has passed since is unknown
-#[verifier::external_body]
-pub struct Instant { _p: () }
-impl Instant {
-  #[verifier::external_body]
-  pub fn now() -> Instant { unimplemented!() }
-  #[verifier::external_body]
-  pub fn elapsed(&self) -> core::time::Duration { unimplemented!() }
-}
 pub uninterp spec fn duration_is_zero(d: core::time::Duration) -> bool;
 pub assume_specification[ core::time::Duration::is_zero ](d: &core::time::Duration) -> (r: bool)
   ensures r == duration_is_zero(*d);
